@@ -154,8 +154,10 @@ def gen_values(cfg, seed):
         for i in range(N):
             for j in range(N):
                 same = blk[i] == blk[j]
-                pat = cfg["pattern"]
-                if pat == "diag" and not same:
+                pat = (cfg.get("patterns") or {}).get(",".join(str(o) for o in order), cfg["pattern"])
+                if pat.startswith("pair") and not same and {blk[i], blk[j]} != {int(pat[4]), int(pat[5])}:
+                    a[i, j] = 0  # this term couples one pair of blocks only
+                elif pat == "diag" and not same:
                     a[i, j] = 0
                 elif pat == "offdiag" and same:
                     a[i, j] = 0
